@@ -111,8 +111,9 @@ class Family:
     # ---- a whole run ----
     def corpus(self):
         progs = []
-        for f in sorted(glob.glob(os.path.join(core.VERIF, "corpus", self.pid, "*.prog"))):
-            progs.append("".join(l for l in open(f) if not l.startswith("#")))
+        for n, f in enumerate(sorted(glob.glob(os.path.join(core.VERIF, "corpus", self.pid, "*.prog")))):
+            # corpus case ids get a reserved prefix so that they can never collide with generated ids
+            progs.append("".join(re.sub(r"^case (?!K\d+_)", "case K%d_" % n, l) for l in open(f) if not l.startswith("#")))
         return "".join(progs)
 
     def classify(self, res, prog_text, obs_text, impl_text, crashes, max_report=4):
